@@ -18,7 +18,8 @@ import (
 var reRaceFn = regexp.MustCompile(`(?m)^  (github\.com/scipipe/scipipe\S*)\(\)$`)
 
 type raceReport struct {
-	Funcs []string
+	Funcs       []string
+	BothTaggers bool // both conflicting accesses happen inside a MapToTags.Run (two taggers in a row)
 }
 
 func parseRaces(log string) []raceReport {
@@ -39,13 +40,18 @@ func parseRaces(log string) []raceReport {
 				fs = append(fs, f)
 			}
 		}
-		out = append(out, raceReport{fs})
+		secs := strings.Split(strings.TrimLeft(blk, "\n"), "\n\n")
+		both := len(secs) >= 2 && strings.Contains(secs[0], "MapToTags).Run") && strings.Contains(secs[1], "MapToTags).Run")
+		out = append(out, raceReport{fs, both})
 	}
 	return out
 }
 
 func classifyRace(r raceReport) string {
 	all := strings.Join(r.Funcs, " ")
+	if r.BothTaggers {
+		return "c12.tagger-chain" // a tagger still touches an IP it has already handed on
+	}
 	if strings.Contains(all, "MapToTags") && (strings.Contains(all, "AddTag") || strings.Contains(all, "WriteAuditLogToFile")) {
 		return "c12.maptotags" // F12
 	}
@@ -94,6 +100,13 @@ func checkC12(ctx *Ctx) {
 		{Name: "C", Kind: "proc", Cmd: "cat {i:in} > {o:out}", Outs: map[string]string{"out": "{i:in}.C"}}},
 		Edges: []Edge{{From: "src.out", To: "A.in"}, {From: "A.out", To: "tagger.in"}, {From: "A.out", To: "B.in"}, {From: "tagger.out", To: "C.in"}}}
 	wfs = append(wfs, wf{"maptotags-fanout", tagd, tagPre, nil})
+	// two taggers in a row: the first must be done with an IP before it sends it on
+	chaind := &Desc{Name: "tagchain", Max: 8, Nodes: []Node{{Name: "src", Kind: "filesource", Paths: tagPaths},
+		{Name: "A", Kind: "proc", Cmd: "cat {i:in} > {o:out}", Outs: map[string]string{"out": "{i:in}.A"}},
+		{Name: "tagger1", Kind: "maptotags", Arg: "origin"}, {Name: "tagger2", Kind: "maptotags", Arg: "second"},
+		{Name: "C", Kind: "proc", Cmd: "cat {i:in} > {o:out}", Outs: map[string]string{"out": "{i:in}.C"}}},
+		Edges: []Edge{{From: "src.out", To: "A.in"}, {From: "A.out", To: "tagger1.in"}, {From: "tagger1.out", To: "tagger2.in"}, {From: "tagger2.out", To: "C.in"}}}
+	wfs = append(wfs, wf{"maptotags-chain", chaind, tagPre, nil})
 	// RunTo with FromStr feeders longer than the buffer (the port maps are mutated by the feeders)
 	rt := Dag{Max: 2, Nodes: []DNode{{Name: "s0", Kind: "src", Items: 3}, {Name: "P0", Kind: "proc", Ins: []string{"s0"}, PIn: "@", PVals: []string{"a", "b", "c"}},
 		{Name: "P1", Kind: "proc", Ins: []string{"P0"}, PIn: "@", PVals: []string{"x", "y", "z"}}}}
